@@ -29,6 +29,8 @@ type Violation struct {
 // Ctx is handed to a check's Run function.
 type Ctx struct {
 	lastBeat int64 // unix nanos of the last sign of progress (watchdog)
+	parent   *Ctx   // scratch context of a determinism re-run: progress counts for the parent's watchdog
+	Doing    string // what the case is executing right now (printed by the watchdog; set by long-running cases)
 	ID      string
 	Tier    string
 	Seed    int64
@@ -204,7 +206,12 @@ func Def[S any](ck Check, enumerate func(c *Ctx, yield func(S)), run func(c *Ctx
 const watchdogLimit = 240 * time.Second
 
 // Heartbeat tells the watchdog that the current case is making progress (one execution finished).
-func (c *Ctx) Heartbeat() { atomic.StoreInt64(&c.lastBeat, time.Now().UnixNano()) }
+func (c *Ctx) Heartbeat() {
+	atomic.StoreInt64(&c.lastBeat, time.Now().UnixNano())
+	if c.parent != nil {
+		c.parent.Heartbeat()
+	}
+}
 
 func runOne[S any](c *Ctx, s S, run func(c *Ctx, s S)) {
 	raw, _ := json.Marshal(s)
@@ -227,7 +234,7 @@ func runOne[S any](c *Ctx, s S, run func(c *Ctx, s S)) {
 			buf := make([]byte, 1<<20)
 			n := runtime.Stack(buf, true)
 			os.WriteFile(filepath.Join(VerifDir, ".work", fmt.Sprintf("watchdog-%d.txt", os.Getpid())), buf[:n], 0o644)
-			fmt.Fprintf(os.Stderr, "WATCHDOG: case made no progress for %v (stacks in .work/watchdog-%d.txt): %s\n", watchdogLimit, os.Getpid(), raw)
+			fmt.Fprintf(os.Stderr, "WATCHDOG: case made no progress for %v (stacks in .work/watchdog-%d.txt): %s; doing: %s\n", watchdogLimit, os.Getpid(), raw, c.Doing)
 			os.Exit(3)
 		}
 	}()
@@ -246,14 +253,41 @@ func runOne[S any](c *Ctx, s S, run func(c *Ctx, s S)) {
 			}
 		}
 		sort.Strings(newSigs)
-		for r := 0; r < 4; r++ {
-			sc := newCtx(c.ID, c.Tier, c.Seed, 0, 1)
-			sc.Replay = true
-			sc.curSpec = raw
-			run(sc, s)
-			for _, k := range newSigs {
-				if _, ok := sc.Viol[k]; !ok {
-					c.Notes = append(c.Notes, fmt.Sprintf("NONDETERMINISTIC: signature %q not reproduced on re-run %d of case %s (first run said: %s)", k, r+1, raw, c.Viol[k].What))
+		// re-run what produced each new signature: the violation's own replayable spec when it has one (a single
+		// schedule of a subtree case), else the whole case
+		type rerun struct {
+			spec S
+			raw  string
+			sigs []string
+		}
+		bySpec := map[string]*rerun{}
+		var order []string
+		for _, k := range newSigs {
+			key := string(c.Viol[k].Spec)
+			var sp S
+			if key == "" || key == "null" || json.Unmarshal([]byte(key), &sp) != nil {
+				key, sp = string(raw), s
+			}
+			rr := bySpec[key]
+			if rr == nil {
+				rr = &rerun{spec: sp, raw: key}
+				bySpec[key] = rr
+				order = append(order, key)
+			}
+			rr.sigs = append(rr.sigs, k)
+		}
+		for _, key := range order {
+			rr := bySpec[key]
+			for r := 0; r < 4; r++ {
+				sc := newCtx(c.ID, c.Tier, c.Seed, 0, 1)
+				sc.Replay = true
+				sc.parent = c
+				sc.curSpec = []byte(rr.raw)
+				run(sc, rr.spec)
+				for _, k := range rr.sigs {
+					if _, ok := sc.Viol[k]; !ok {
+						c.Notes = append(c.Notes, fmt.Sprintf("NONDETERMINISTIC: signature %q not reproduced on re-run %d of %s (first run said: %s)", k, r+1, rr.raw, c.Viol[k].What))
+					}
 				}
 			}
 		}
